@@ -448,7 +448,7 @@ Lemma forallb_false_nth {A} (f : A -> bool) : forall l,
 Proof.
   induction l as [|y l IH]; cbn; [discriminate|].
   destruct (f y) eqn:E; cbn.
-  - intro H. destruct (IH H) as (w & x & A & B). exists (S w), x. split; assumption.
+  - intro H. destruct (IH H) as (w & x & A1 & B1). exists (S w), x. split; assumption.
   - intros _. exists O, y. split; [reflexivity|exact E].
 Qed.
 
